@@ -5,3 +5,7 @@ use serde_json::{json, Value};
 pub fn miri_leg(_ctx: &Ctx, _which: &str) -> Value {
     json!({"miri_leg": "not built yet"})
 }
+
+pub fn c10_legs(_ctx: &Ctx) -> Value {
+    json!({"tsan_leg": "not built yet", "miri_leg": "not built yet"})
+}
